@@ -694,11 +694,11 @@ class BasePlaceholderManager(MpfController):
 
     def _eval_if(self, node, variables, subscribe):
         value, subscription = self._eval(node.test, variables, subscribe)
-        if value:
-            ret_value, ret_subscription = self._eval(node.body, variables, subscribe)
-            return ret_value, subscription + ret_subscription
-
-        ret_value, ret_subscription = self._eval(node.orelse, variables, subscribe)
+        try:
+            ret_value, ret_subscription = self._eval(node.body if value else node.orelse, variables, subscribe)
+        except TemplateEvalError as e:
+            # keep the subscriptions of the test: it decides which branch gets evaluated next time
+            raise TemplateEvalError(subscription + e.subscriptions)
         return ret_value, subscription + ret_subscription
 
     def _eval_bin_op(self, node, variables, subscribe):
